@@ -373,4 +373,39 @@ theorem mpCex_not_inframe : ¬ FlowStatsInFrame mpCexT := by
   have hf : recordsOK anyLenM (Slice.exact mpFrame) 1 80 ((Slice.exact mpFrame).len + 2) 16 = false := rfl
   exact absurd (h'.symm.trans hf) (by decide)
 
+/-! ### further action kinds (standalone; not yet part of `ActionKindCovered`) -/
+
+/-- the common prefix of the Nicira actions (`NXActionHeader` from `data[0:]`, then `len(data) < Length`): local -/
+theorem nxPrefix_loc {s t : Slice} (haw : AW s t) : nxPrefix s = nxPrefix t := by
+  unfold nxPrefix NXActionHeader.fresh
+  rw [NXActionHeader_loc _ haw, haw.len_eq]
+
+theorem NXActionConjunction_loc (recv : V) {s t : Slice} (haw : AW s t) :
+    NXActionConjunction.unmarshal recv s = NXActionConjunction.unmarshal recv t := by
+  unfold NXActionConjunction.unmarshal
+  rw [nxPrefix_loc haw]
+  loc_norm haw
+
+theorem NXActionCTClear_loc (recv : V) {s t : Slice} (haw : AW s t) :
+    NXActionCTClear.unmarshal recv s = NXActionCTClear.unmarshal recv t := by
+  unfold NXActionCTClear.unmarshal
+  rw [nxPrefix_loc haw]
+
+theorem NXActionDecTTL_loc (recv : V) {s t : Slice} (haw : AW s t) :
+    NXActionDecTTL.unmarshal recv s = NXActionDecTTL.unmarshal recv t := by
+  unfold NXActionDecTTL.unmarshal
+  rw [nxPrefix_loc haw]
+  try loc_norm haw
+
+/-- set-field: header from `data[0:]`, field from `data[4:]` — both checked against `len`: local -/
+theorem ActionSetField_loc (recv : V) {s t : Slice} (haw : AW s t) :
+    ActionSetField.unmarshal recv s = ActionSetField.unmarshal recv t := by
+  unfold ActionSetField.unmarshal
+  split
+  · repeat' first
+      | loc_step haw
+      | simp only [ActionHeader_loc _ ‹AW _ _›]
+      | simp only [MatchField_loc _ ‹AW _ _›]
+  · rfl
+
 end OFV.Model
